@@ -177,11 +177,15 @@ pub struct ControllerS { pub inner: SenderInnerS }
 pub struct Transaction { pub controller: ControllerS, pub declared: Declared, pub is_discharged: bool, pub rollback_on_drop_trials: u32 }
 pub struct OwnedTransaction { pub inner: SenderInnerS, pub declared: Declared, pub is_discharged: bool, pub rollback_on_drop_trials: u32 }
 
+/// waiting for the shared controller's lock (and then for the coordinator's outcome) is where a `commit()` / `rollback()` future can be dropped: a cancellation point
+pub fn await_point_in_discharge(marked_discharged: bool)
+    requires !marked_discharged,       // [C18.controller.not-marked-discharged-before-the-outcome] [C16.controller.not-marked-discharged-before-the-outcome] while the discharge can still be cancelled (or fail) the transaction is NOT marked as discharged: a retried commit() sends the discharge, and Drop still rolls back -- a mark set early would make both silently do nothing
+{}
 impl Transaction {
 //@@ fn file=fe2o3-amqp/src/transaction/mod.rs impl=`impl<'t> TransactionDischarge for Transaction<'t>` name=discharge
 //@@ qmark
 //@@ ret Result<(), ControllerSendError>
-//@@ subst `self.controller.inner.lock()` => `(&mut self.controller.inner)` rule=R4
+//@@ subst `let mut inner = self.controller.inner.lock();` => `await_point_in_discharge(self.is_discharged); let mut inner = (&mut self.controller.inner);` rule=R4,R3b
 //@@ subst `&mut inner` => `inner` rule=R4
 //@@ spec
     ensures
@@ -216,6 +220,7 @@ impl OwnedTransaction {
 //@@ fn file=fe2o3-amqp/src/transaction/owned.rs impl=`impl TransactionDischarge for OwnedTransaction` name=discharge as=owned_discharge
 //@@ qmark
 //@@ ret Result<(), ControllerSendError>
+//@@ subst `discharge_on_link(&mut self.inner, __E1)` => `({ await_point_in_discharge(self.is_discharged); discharge_on_link(&mut self.inner, __E1) })` rule=R3b
 //@@ spec
     ensures
         final(self).declared == old(self).declared, final(self).inner.closes == old(self).inner.closes,
